@@ -146,7 +146,7 @@ def judge(case, reals, gens, specs):
     nstep = 0
     srt = sorted(d["seq"])
     lines = ["wlinit %d %d %d %d %d %s %s %d" % (n, cfg["rmin"], cfg["rmax"], cfg["ntarget"], cfg["nflatchk"],
-                                                   Fraction(cfg["flatcrit"]), Fraction(math.log(cfg["convergence"])).limit_denominator(10 ** 9), cur)]
+                                                   Fraction(tk[6]), Fraction(math.log(cfg["convergence"])).limit_denominator(10 ** 9), cur)]
     for k, st in enumerate(trace):
         lnf = 2.0 ** (-lnf_exp)
         if abs(st["f"] - math.exp(lnf)) > 1e-9:
@@ -194,8 +194,16 @@ def judge(case, reals, gens, specs):
         if st.get("flatcheck"):
             hl = H[cfg["rmin"]:cfg["rmax"] + 1]
             tot = sum(hl)
-            flat = tot > 0 and len(hl) == cfg["ntarget"] and all(Fraction(h) * len(hl) >= Fraction(cfg["flatcrit"]) * tot for h in hl)
+            # the criterion as the caller gave it (exact), not the binary fraction the float happens to be
+            crit = Fraction(tk[6])
+            flat = tot > 0 and len(hl) == cfg["ntarget"] and all(Fraction(h) * len(hl) >= crit * tot for h in hl)
             did = st["niter_after"] == niter + 1
+            tie = tot > 0 and any(Fraction(h) * len(hl) == crit * tot for h in hl)
+            mean_q = Fraction(tot, len(hl)) if hl else Fraction(0)
+            if tie and (mean_q.denominator & (mean_q.denominator - 1)) != 0:
+                # a bin sits EXACTLY on the criterion and the mean is not a binary fraction: the float quotient H/mean may fall on either side
+                case.tags["near_threshold"] = True
+                flat = did
             if did != flat:
                 bad("step %d: histogram %r (criterion %r) -> iteration %s" % (k, hl, cfg["flatcrit"], "advanced" if did else "not advanced"))
             if did:
@@ -272,6 +280,8 @@ def judge(case, reals, gens, specs):
             if not ok:
                 if racc[k] is not None and abs(racc[k] - st["acceptProb"]) < 1e-12:
                     break
+                if case.tags.get("near_threshold"):
+                    break       # (a flat check sat exactly on the criterion with a non-binary mean: the exact model and the float code may part there)
                 bad("step %d: Lean state machine gives %s but the trace has accepted=%r bin=%d g=%r H=%r" % (
                     k, o, st["accepted"], st["cur_idx"], st["g_after"][st["cur_idx"]], st["H_after"][st["cur_idx"]]))
                 break
